@@ -985,6 +985,9 @@ func typeAssert(fr *frame, instr *ir.TypeAssert, itf iface) value {
 	}
 	if failed {
 		if !instr.CommaOk {
+			if itf.t == nil && types.IsInterface(asserted) {
+				rtPanic(ErrNilOrAssert)
+			}
 			rtPanic(ErrAssert)
 		}
 		return tuple{zero(asserted), false}
@@ -1100,7 +1103,7 @@ func callBuiltin(caller *frame, fn *ir.Builtin, args []value) value {
 			return len(x)
 		case *value:
 			if x == nil {
-				unsupported("len of nil *array")
+				return arrayPtrLen(fn)
 			}
 			return len((*x).(array))
 		case []value:
@@ -1119,7 +1122,7 @@ func callBuiltin(caller *frame, fn *ir.Builtin, args []value) value {
 			return len(x)
 		case *value:
 			if x == nil {
-				unsupported("cap of nil *array")
+				return arrayPtrLen(fn)
 			}
 			return len((*x).(array))
 		case []value:
@@ -1599,4 +1602,16 @@ func fandbits[F floaty](x, y F) F {
 		*(*uint64)(unsafe.Pointer(&x)) &= *(*uint64)(unsafe.Pointer(&y))
 	}
 	return x
+}
+
+// arrayPtrLen returns len(*p) for the *array parameter of a len/cap built-in (which does not
+// dereference p).
+func arrayPtrLen(fn *ir.Builtin) int {
+	sig := fn.Type().(*types.Signature)
+	if p, ok := sig.Params().At(0).Type().Underlying().(*types.Pointer); ok {
+		if a, ok := p.Elem().Underlying().(*types.Array); ok {
+			return int(a.Len())
+		}
+	}
+	panic("len/cap of a pointer that does not point to an array")
 }
